@@ -36,22 +36,22 @@ type undecidedErr struct{ msg string }
 
 // Ctx holds the loaded program and the obligations of the property being decided.
 type Ctx struct {
-	Repo   string
-	Tier   string
-	Prop   string
-	Fset   *token.FileSet
-	Pkgs   map[string]*packages.Package // by import path
-	Prog   *ssa.Program
-	SSA    map[string]*ssa.Package
-	cgCHA  *callgraph.Graph
-	cgVTA  *callgraph.Graph
-	Obs    []*Obligation
-	Sites  map[string]int // per-rule site counts
-	Funcs  map[string]bool
-	Rules  map[string]string // rule id -> text
-	Notes  []string
-	Undec  []string
-	relPfx string
+	Repo        string
+	Tier        string
+	Prop        string
+	Fset        *token.FileSet
+	Pkgs        map[string]*packages.Package // by import path
+	Prog        *ssa.Program
+	SSA         map[string]*ssa.Package
+	cgCHA       *callgraph.Graph
+	cgVTA       *callgraph.Graph
+	Obs         []*Obligation
+	Sites       map[string]int // per-rule site counts
+	Funcs       map[string]bool
+	Rules       map[string]string // rule id -> text
+	Notes       []string
+	Undec       []string
+	relPfx      string
 	ruleAlias   map[string]string
 	renamed     map[string]*ssa.Function // reference name -> function now carrying another name (anchors.go)
 	RenameNotes []string
